@@ -78,6 +78,7 @@ type rcFrameSpec struct {
 	N    int `json:"n"`    // packets
 	KF   int `json:"kf"`   // keyframe
 	Size int `json:"size"` // bytes of frame data
+	Dim  int `json:"dim"`  // keyframes: 0 = 640x480, 1 = 320x240 (a change of dimensions starts a new file)
 }
 type rcTrackSpec struct {
 	Kind   string        `json:"kind"` // "video" | "audio"
@@ -142,6 +143,9 @@ func rcBuildTrack(r *rand.Rand, sp rcTrackSpec) ([]rcPkt, []map[string]any) {
 				if f.KF != 0 {
 					data[0] = 0x10
 					copy(data[3:], []byte{0x9d, 0x01, 0x2a, 0x80, 0x02, 0xe0, 0x01}) // 640x480
+					if f.Dim == 1 {
+						copy(data[6:], []byte{0x40, 0x01, 0xf0, 0x00}) // 320x240
+					}
 				} else {
 					data[0] = 0x11
 				}
